@@ -208,7 +208,7 @@ RULES = {
            "lookup decoders, leakily quantised distributions over i32 symbols with arbitrary inverse hints}); configs (PRECISION/Word/State): "
            "8/u16/u32, 8/u8/u16, 12/u16/u32, 16/u16/u32, 12/u32/u64, 24/u32/u64, 32/u32/u64; non-trivial = >= 3 symbols decoded from >= 2 words; "
            "second target: chain-coder histories of C13 (arbitrary words, harness tables, change_precision between symbols over the chain grid) judged by the C10 oracle only; non-trivial = >= 2 decodes and >= 1 precision change",
-    "C09": "case = (coder from {ANS over Vec, range encoder, chain coder, ANS over a bounded Cursor of 0..7 words that fills up (forward, or reversed in place so that writes run towards index 0), ANS over a "
+    "C09": "case = (coder from {ANS over Vec, range encoder, chain coder, ANS over a bounded Cursor of 0..7 words that fills up (forward, or reversed in place so that writes run towards index 0; temporary get_compressed() views are taken on it, which may fail for lack of space), ANS over a "
            "sink that fails exactly the j-th write, bit-level stack / queue coder with a generated Huffman codebook}, 1..3 valid models with "
            "an encoder view from the zoo used round-robin, encode history of 0..40 (quick) / 0..400 symbols in which each position is, with a "
            "generated rate, a BAD encode of a symbol outside the model's support: neighbours of the support, type extremes, values congruent "
